@@ -472,9 +472,10 @@ pub fn c07(ctx: &Ctx, rep: &mut Report) {
             }
         }
     }
-    let big = if ctx.thorough { 400 } else { 30 };
-    for _ in 0..big {
-        let n = rng.range(65, if ctx.thorough { 3000 } else { 300 });
+    // memory: a case holds its whole matrix (n = 3000: 36 MB), so the very large sizes are few
+    let big = if ctx.thorough { 162 } else { 30 };
+    for i in 0..big {
+        let n = if !ctx.thorough { rng.range(65, 300) } else if i < 150 { rng.range(65, 1000) } else { rng.range(1000, 3000) };
         let k = rng.below(gen::tri(n) as u64) as usize;
         push(&mut cases, &mut meta, &mut rng, n, k, false);
     }
